@@ -118,7 +118,6 @@ pub fn c07_hsv_to_hwb_f32_finite() {
 /// @fn <Alpha<LinSrgb<f32>,f32> as Blend>::dodge
 /// @fn Premultiply::premultiply, Premultiply::unpremultiply, blend::blend::dodge_blend
 /// @bound all f32 components in {0, 1} or [1e-9, 1 - 1e-9]; the three colour channels carry the same value
-/// @thorough
 #[kani::proof]
 pub fn c07_blend_dodge_f32_finite() {
     use palette::blend::Blend;
@@ -136,7 +135,6 @@ pub fn c07_blend_dodge_f32_finite() {
 /// @fn <Alpha<LinSrgb<f32>,f32> as Blend>::burn
 /// @fn Premultiply::premultiply, Premultiply::unpremultiply, blend::blend::burn_blend
 /// @bound all f32 components in {0, 1} or [1e-9, 1 - 1e-9]; the three colour channels carry the same value
-/// @thorough
 #[kani::proof]
 pub fn c07_blend_burn_f32_finite() {
     use palette::blend::Blend;
@@ -147,6 +145,75 @@ pub fn c07_blend_burn_f32_finite() {
     let a = Alpha { color: LinSrgb::new(s, s, s), alpha: sa };
     let b = Alpha { color: LinSrgb::new(d, d, d), alpha: da };
     let r = a.burn(b);
+    assert!(r.color.red.is_finite() && r.alpha.is_finite());
+}
+
+/// overlay (multiply or screen by the destination) and the unpremultiplied result are finite for every in-range source / destination colour and alpha, f32 (zero alpha included)
+/// @fn <Alpha<LinSrgb<f32>,f32> as Blend>::overlay
+/// @fn Premultiply::premultiply, Premultiply::unpremultiply
+/// @bound all f32 components in {0, 1} or [1e-9, 1 - 1e-9]; the three colour channels carry the same value
+#[kani::proof]
+pub fn c07_blend_overlay_f32_finite() {
+    use palette::blend::Blend;
+    use palette::{Alpha, LinSrgb};
+    let (s, sa, d, da): (f32, f32, f32, f32) = (kani::any(), kani::any(), kani::any(), kani::any());
+    kani::assume(unit(s) && unit(sa) && unit(d) && unit(da));
+    kani::cover!(true);
+    let a = Alpha { color: LinSrgb::new(s, s, s), alpha: sa };
+    let b = Alpha { color: LinSrgb::new(d, d, d), alpha: da };
+    let r = a.overlay(b);
+    assert!(r.color.red.is_finite() && r.alpha.is_finite());
+}
+
+/// hard light and the unpremultiplied result are finite for every in-range source / destination colour and alpha, f32 (zero alpha included)
+/// @fn <Alpha<LinSrgb<f32>,f32> as Blend>::hard_light
+/// @fn Premultiply::premultiply, Premultiply::unpremultiply
+/// @bound all f32 components in {0, 1} or [1e-9, 1 - 1e-9]; the three colour channels carry the same value
+#[kani::proof]
+pub fn c07_blend_hard_light_f32_finite() {
+    use palette::blend::Blend;
+    use palette::{Alpha, LinSrgb};
+    let (s, sa, d, da): (f32, f32, f32, f32) = (kani::any(), kani::any(), kani::any(), kani::any());
+    kani::assume(unit(s) && unit(sa) && unit(d) && unit(da));
+    kani::cover!(true);
+    let a = Alpha { color: LinSrgb::new(s, s, s), alpha: sa };
+    let b = Alpha { color: LinSrgb::new(d, d, d), alpha: da };
+    let r = a.hard_light(b);
+    assert!(r.color.red.is_finite() && r.alpha.is_finite());
+}
+
+/// soft light (square root branch included) and the unpremultiplied result are finite for every in-range source / destination colour and alpha, f32 (zero alpha included)
+/// @fn <Alpha<LinSrgb<f32>,f32> as Blend>::soft_light
+/// @fn Premultiply::premultiply, Premultiply::unpremultiply
+/// @bound all f32 components in {0, 1} or [1e-9, 1 - 1e-9]; the three colour channels carry the same value
+/// @thorough
+#[kani::proof]
+pub fn c07_blend_soft_light_f32_finite() {
+    use palette::blend::Blend;
+    use palette::{Alpha, LinSrgb};
+    let (s, sa, d, da): (f32, f32, f32, f32) = (kani::any(), kani::any(), kani::any(), kani::any());
+    kani::assume(unit(s) && unit(sa) && unit(d) && unit(da));
+    kani::cover!(true);
+    let a = Alpha { color: LinSrgb::new(s, s, s), alpha: sa };
+    let b = Alpha { color: LinSrgb::new(d, d, d), alpha: da };
+    let r = a.soft_light(b);
+    assert!(r.color.red.is_finite() && r.alpha.is_finite());
+}
+
+/// exclusion and the unpremultiplied result are finite for every in-range source / destination colour and alpha, f32 (zero alpha included)
+/// @fn <Alpha<LinSrgb<f32>,f32> as Blend>::exclusion
+/// @fn Premultiply::premultiply, Premultiply::unpremultiply
+/// @bound all f32 components in {0, 1} or [1e-9, 1 - 1e-9]; the three colour channels carry the same value
+#[kani::proof]
+pub fn c07_blend_exclusion_f32_finite() {
+    use palette::blend::Blend;
+    use palette::{Alpha, LinSrgb};
+    let (s, sa, d, da): (f32, f32, f32, f32) = (kani::any(), kani::any(), kani::any(), kani::any());
+    kani::assume(unit(s) && unit(sa) && unit(d) && unit(da));
+    kani::cover!(true);
+    let a = Alpha { color: LinSrgb::new(s, s, s), alpha: sa };
+    let b = Alpha { color: LinSrgb::new(d, d, d), alpha: da };
+    let r = a.exclusion(b);
     assert!(r.color.red.is_finite() && r.alpha.is_finite());
 }
 
